@@ -90,9 +90,30 @@ def embed(mm, vse, owner_t, path, inner):
     return None
 
 
-def shapes(mm, vse, alt, k):
+LONG = (101, 1025)          # array lengths beyond any "first N items" shortcut a hook may take
+
+
+def _reorder(v, how):
+    """The same JSON value with the members of every object in another order (JSON objects are unordered)."""
+    if isinstance(v, dict):
+        items = [(k, _reorder(x, how)) for k, x in v.items()]
+        if how == "reversed":
+            items.reverse()
+        elif how == "rotated" and len(items) > 1:
+            items = items[1:] + items[:1]
+        return dict(items)
+    if isinstance(v, list):
+        return [_reorder(x, how) for x in v]
+    return v
+
+
+def shapes(mm, vse, alt, k, site_or=None):
     """Representative shapes of one alternative: cost <= k neighbourhood from the minimal base, the
-    maximal value, and for array alternatives every ordered pair of element shapes (cost <= 1)."""
+    maximal value, and for array alternatives every ordered pair of element shapes (cost <= 1);
+    object shapes also with their members in reversed / rotated order; array alternatives also as long
+    arrays (label "long"); a string alternative next to structure alternatives (site_or) also with the
+    property names of those structures as the string."""
+    import json as _json
     seen = set()
     out = []
 
@@ -101,6 +122,13 @@ def shapes(mm, vse, alt, k):
         if c not in seen:
             seen.add(c)
             out.append((label, v))
+            if isinstance(v, dict) and len(v) > 1 or isinstance(v, list) and v and isinstance(v[0], dict) and len(v[0]) > 1:
+                for how in ("reversed", "rotated"):
+                    w = _reorder(v, how)
+                    ck = "order:" + _json.dumps(w)
+                    if ck not in seen and _json.dumps(w) != _json.dumps(v):
+                        seen.add(ck)
+                        out.append((label + "/" + how, w))
     for c, v in vse.enum(alt, k):
         add("min+%d" % c, v)
     try:
@@ -125,6 +153,29 @@ def shapes(mm, vse, alt, k):
         for a in elems:
             for b in elems:
                 add("pair", [a, b])
+        # long arrays: a homogeneous prefix followed by one element of another shape (and the reverse)
+        few = _diverse(all_elems, 5)
+        for n in LONG:
+            for a in few:
+                for b in few:
+                    v = [a] * (n - 1) + [b]
+                    c = "long:%d:%s:%s" % (n, canon(a), canon(b))
+                    if c not in seen:
+                        seen.add(c)
+                        out.append(("long", v))
+    if site_or is not None and t["kind"] == "base" and t["name"] in ("string", "DocumentUri", "URI"):
+        names = []
+        for it in site_or["items"]:
+            try:
+                ps = mm.props_of(it) if it["kind"] in ("reference", "literal", "and") else None
+            except Exception:  # noqa: BLE001
+                ps = None
+            for p in ps or []:
+                if p["name"] not in names:
+                    names.append(p["name"])
+        for nm in names:
+            add("keyname", nm)
+            add("keyname", "a-" + nm + "-b")
     return out
 
 
@@ -184,7 +235,7 @@ def _site_task(args):
     for ai, alt in enumerate(ort["items"]):
         akey = "%d:%s" % (ai, alt.get("name") or alt["kind"])
         n = 0
-        for slabel, v in ([("null", None)] if is_null_type(alt) else shapes(mm, vse, alt, k)):
+        for slabel, v in ([("null", None)] if is_null_type(alt) else shapes(mm, vse, alt, k, site_or=ort)):
             for rname, rt, rpath in roots:
                 j = embed(mm, vse, rt, rpath, v)
                 if j is None and rpath:
